@@ -120,8 +120,10 @@ func (s *Entry) newChildLogger(args ...any) *Entry {
 		return l
 	}
 
-	s.items[name] = newentry(s, args...)
-	return s.items[name]
+	child := newentry(s, args...)
+	child.name = name // an anonymous child is known by the name it is registered under
+	s.items[name] = child
+	return child
 }
 
 // unusedName generates a random name that no direct child of s
